@@ -368,6 +368,9 @@ where
                     );
                     parse_stack.push_state(context, state);
                     builder.shift_action(context, next_token);
+                    // The layout belongs to the token just shifted. Lexers which
+                    // don't skip whitespaces never reset it.
+                    context.set_layout_ahead(None);
 
                     log!(
                         "{} at {:?} [{:?}]:\n{}\n",
